@@ -216,6 +216,7 @@ fn c05_machine_semantics_replay() {
     let mut tested = 0usize;
     let mut n_fail_expected = 0usize;
     let mut n_disconnect = 0usize;
+    let mut n_fixed = 0usize;
     // every program is built in its own inference context: (builder index) -> program
     let n_leaf = types::Context::with_context(|ctx| programs(&ctx, 2).len());
     let mut shapes: Vec<(usize, usize, usize)> = Vec::new(); // (kind, i, j)
@@ -255,6 +256,13 @@ fn c05_machine_semantics_replay() {
             }
         }
     }
+    // the same side-by-side compositions fed with two concrete words, so that the cursors move by non-zero widths
+    // (polymorphic programs finalize their free types to unit, where a misplaced cursor cannot be seen)
+    for i in 0..24 {
+        for j in 0..8 {
+            shapes.push((7, i, j));
+        }
+    }
     for (kind, i, j) in shapes {
         types::Context::with_context(|ctx| {
             let ps = programs(&ctx, 2);
@@ -282,6 +290,41 @@ fn c05_machine_semantics_replay() {
                     Ok(c) => (format!("pair (comp ({}) iden) (comp ({}) iden)", ps[i].0, ps[j].0), c),
                     Err(_) => return,
                 },
+                7 => {
+                    // projections built from FRESH leaves (the entries of `ps` share their leaves, hence type variables)
+                    let proj = |k: usize| -> Option<(String, N)> {
+                        let id = || N::iden(&ctx);
+                        Some(match k % 8 {
+                            0 => ("take iden".to_string(), N::take(&id())),
+                            1 => ("drop iden".to_string(), N::drop_(&id())),
+                            2 => ("iden".to_string(), id()),
+                            3 => ("unit".to_string(), N::unit(&ctx)),
+                            4 => ("injl (take iden)".to_string(), N::injl(&N::take(&id()))),
+                            5 => ("pair (drop iden) (take iden)".to_string(), N::pair(&N::drop_(&id()), &N::take(&id())).ok()?),
+                            6 => ("comp (drop iden) iden".to_string(), N::comp(&N::drop_(&id()), &id()).ok()?),
+                            _ => ("injr (drop iden)".to_string(), N::injr(&N::drop_(&id()))),
+                        })
+                    };
+                    let (na, a) = match proj(i) { Some(x) => x, None => return };
+                    let (nb, b) = match proj(j) { Some(x) => x, None => return };
+                    let (desc, side) = match (i / 8) % 3 {
+                        0 => (format!("pair (comp ({}) iden) ({})", na, nb), N::comp(&a, &N::iden(&ctx)).and_then(|x| N::pair(&x, &b))),
+                        1 => (format!("pair ({}) (comp ({}) iden)", na, nb), N::comp(&b, &N::iden(&ctx)).and_then(|x| N::pair(&a, &x))),
+                        _ => (format!("pair (comp ({}) iden) (comp ({}) iden)", na, nb), N::comp(&a, &N::iden(&ctx)).and_then(|x| N::comp(&b, &N::iden(&ctx)).and_then(|y| N::pair(&x, &y)))),
+                    };
+                    let side = match side {
+                        Ok(c) => c,
+                        Err(_) => return,
+                    };
+                    let words = match N::pair(&N::const_word(&ctx, Word::u8(0xa5)), &N::const_word(&ctx, Word::u4(0x3))) {
+                        Ok(c) => c,
+                        Err(_) => return,
+                    };
+                    match N::comp(&words, &side) {
+                        Ok(c) => (format!("comp (pair (word 0xa5) (word 0x3)) ({})", desc), c),
+                        Err(_) => return,
+                    }
+                }
                 4 => {
                     // disconnect s t, with s one of: pair unit (drop iden) [C = A], pair (take iden) (drop iden) [B = the root],
                     // pair (drop x) (take iden) [C = 2^256]; t = ps[i]
@@ -363,6 +406,9 @@ fn c05_machine_semantics_replay() {
                 if name.starts_with("disconnect") {
                     n_disconnect += 1;
                 }
+                if name.starts_with("comp (pair (word 0xa5)") {
+                    n_fixed += 1;
+                }
                 if matches!(expect, Fails) {
                     n_fail_expected += 1;
                 }
@@ -390,7 +436,7 @@ fn c05_machine_semantics_replay() {
             break;
         }
     }
-    println!("TESTED: {} executions, {} of them expected to fail, {} of disconnect programs", tested, n_fail_expected, n_disconnect);
+    println!("TESTED: {} executions, {} of them expected to fail, {} of disconnect programs, {} on two fixed words", tested, n_fail_expected, n_disconnect, n_fixed);
     for f in &fails {
         println!("CEX: {}", f);
     }
